@@ -6,6 +6,21 @@ def rel(budget, shards=NC, **kw):
     return dict(engine="native-rel", shards=shards, budget=budget, **kw)
 
 META = {
+    "C01": dict(
+        level="exploration",
+        technique="runtime monitoring + sanitizers: generated scenario programs over the whole public API executed on the real manager/renderer with a counting allocator armed inside callbacks, panic recorder, thread-CPU-time watchdog, output scanner and lock-step channel-law comparison; repeated under overflow checks, AddressSanitizer and Miri",
+        design_ref="DESIGN.md §3 C01",
+        rule=("Random scenario programs (30-300 ops): configuration (capacities 1..128, internal buffer 1..1024, 6 sample rates, 1..8 channels, main-track effects); clocks, listeners, tweener/LFO modulators, send tracks, plain/spatial/nested tracks with chains of all 8 effects (incl. nested delays) and send routes; "
+              "static sounds (length 0..5000, slices, loops, reverse, start positions incl. out of range, rates/volumes/pannings fixed or linked to modulators or listener distance, fade-in, delayed/clock start) and streaming sounds; every handle command with random tweens (zero duration, all easings, immediate/delayed/clock start); "
+              "effect-handle setters; handle drops; sample-rate changes; callbacks of arbitrary sizes. Sources are full-scale noise so sums exceed +-1. Monitors on every callback: 0 allocation/free events on the audio thread, no panic, <= 5 s thread CPU time (hang), every sample finite and in [-1,1], channels >= 2 silent, "
+              "and (programs without streaming sounds) a second rig with 1 or 3..8 channels run in lock-step: mono == (L+R)/2 and first two channels == stereo, bit-exact. A program is distinct and non-trivial when its (set of op kinds, buffer size, sample rate, channels) is new and it produced non-zero output."),
+        domain="D0 U B of DESIGN.md 2.3; excluded while listed as known findings: distortion drive <= -60 dB, delays shorter than one frame at 8 kHz, reverse with start >= length, SecondsPerTick(0); not generated (diverge by construction): loop gains > 0 dB, expander ratios < 0.25, seek targets beyond 10 s, spatial min >= max distance",
+        assumptions=["single-threaded deterministic histories (commands between callbacks); concurrent interleavings are C05/C07/C08's subject", "the CPU-time bound detects hangs and gross overruns, not missed audio deadlines"],
+        quick=[rel(30), dict(engine="native-dev", shards=16, budget=12)],
+        thorough=[rel(900), dict(engine="native-dev", shards=16, budget=300), dict(engine="asan", shards=16, budget=300), dict(engine="miri", shards=16, budget=240, parallel=16)],
+        level_text="Monitors and sanitizers observing ~10^4 (quick) / 10^6 (thorough) generated programs of the real library, native + overflow-checked + ASan + Miri builds; exploration of an unbounded program space.",
+        level_note="Trusts the counting global allocator (armed per thread), the panic hook and /proc thread CPU accounting; Miri runs small programs only (cost).",
+    ),
     "C02": dict(
         level="exploration",
         technique="runtime monitoring: probe Sound/Effect implementations (known per-frame signals, affine order-sensitive effects, call logs) through the real AudioManager/Renderer, compared per frame with an independent f64 model of the documented signal flow",
